@@ -198,7 +198,16 @@ EXTRA_TEXT = {
     "C01": " Added: the snapping stage is now an exact Lean model (Model/SnapLoop.lean, tied to the real snap_traces and to the loop inside branches_and_nodes by stream S06-snappass); "
            "C01_snap_stage_identity proves it is the identity (no repeat pass, no raise) on every map whose decidable quietMap holds, and the oracle evaluates quietMap on the clipped "
            "pieces of every valid map of S01 (all quiet). The node-table and branch-label LOOPS are regenerated as well (C05_generated_*).",
-    "C04": " Added streams: mirror-image traces inside one bounding box; S04-stubs (stubs of 1.05-3 x snap at a host's tip must be branches: exact total length).",
+    "C04": " Added streams: mirror-image traces inside one bounding box; S04-stubs (stubs of 1.05-3 x snap at a host's tip must be branches: exact total length). "
+           "C04_pass_stays_within_threshold: one snapping pass adds to a trace only ends strictly within the threshold of it as it was before the pass; C04_cumulative_drag_witness: "
+           "the bound is per pass, not cumulative -- known finding F25 (stacked input, target dragged 1.63 x snap), reported as KNOWN-FINDING and recognised by its trigger region only.",
+    "C02": " Added: determine_node_junctions, determine_valid_intersection_points_no_vnode and the row loop of determine_general_nodes are regenerated; C02_generated_junctions "
+           "(marks = Spec.junctionMarks under QueryLaw), C02_generated_intersection_filter, C02_generated_general_nodes (one node-tuple pair per row in row order); stream S02-generated runs "
+           "the compiled regenerated code against the Python functions. Crispness of lattice polylines is an exact test (angleCrisp, contactsApart).",
+    "C03": " Added: the while loop of branches_and_nodes is regenerated (SnapDriver) and C03_generated_loop_bound proves it returns only after at most allowed_loops repeat passes; "
+           "disagreements inside the trigger region of known finding F9 (two traces each with an end within the threshold of the other) are reported as that finding only.",
+    "C08": " Added: both loops of determine_boundary_intersecting_lines are regenerated; C08_generated_boundary_lines characterises the two flag arrays for any number of areas and lines, "
+           "C08_count_is_ends_on_boundary shows the count is the number of ends on the boundary on crisp input; stream S08-generated runs the compiled regenerated loops against the real function.",
     "C05": " Added: the whole node_identity, the collection loop of node_identities_from_branches and the loop of get_branch_identities are regenerated (translator loops) and "
            "C05_generated_node_table / C05_generated_branch_labels prove they compute exactly Topo.nodeTable / Topo.branchLabel for every branch list, under the stated laws of the "
            "spatial-index parameters (QueryLaw, BoxLaw) -- so the theorems above are statements about regenerated code, not only about a hand model.",
@@ -211,7 +220,8 @@ EXTRA_TEXT = {
            "C09_empty_area covers the documented EMPTY TARGET AREA exit (repaired defect F23); S09 includes duplicate index labels and areas void of traces.",
     "C10": " Added: the whole UnderlappingSnapValidator.validation_method (both loops, well-snapped skip, window, first hit, class attribute) is regenerated and proved equal to the "
            "hand-written decision Spec.underlapVerdict (C10_generated_underlap_eq_spec); C10_underlap_silent_iff: a trace passes exactly when every end is well snapped or has no candidate "
-           "in (t, t*m). Stream S10-stacking sweeps the stacking window deterministically (alongside length x orientation x start x offsets to 1e7 x thresholds).",
+           "in (t, t*m). Stream S10-stacking sweeps the stacking window deterministically (alongside length x orientation x start x offsets to 1e7 x thresholds), S10-sharp the direction-change limit of SHARP TURNS. "
+           "TargetAreaSnapValidator.validation_method and simple_underlapping_checks are regenerated as well (C10_generated_area_validation, C10_simple_underlapping_checks).",
     "C12": " Added: determine_intersect and the pair loop of determine_crosscut_abutting_relationships are regenerated; C12_generated_determine_intersect (= Rel.intersectOf, all cases) and "
            "C12_generated_rows (exactly one row per pair of sets that both contain traces, in combinations order, each from its own pair) hold for all inputs.",
     "C13": " Added: C13_underlap_attribute over the regenerated stateful validator (a passing call leaves the class attribute untouched; verdict and written string never depend on its old "
@@ -219,7 +229,8 @@ EXTRA_TEXT = {
     "C14": " Added stream S14-slivers (corner slivers of 0.5-4 x snap: all four routes must agree).",
     "C16": " S16-validation now also runs user-supplied thresholds 0.1 and 0.001.",
     "C17": " S17 adds the input with a CRS on the traces only and plain cold-then-warm repeats of crop / topology.",
-    "C18": " S18 adds reordered / filtered precursor grids (index labels not 0..n-1).",
+    "C18": " S18 adds reordered / filtered precursor grids (index labels not 0..n-1). The two loops of create_grid are regenerated and C18_generated_grid proves they build exactly Grid.cells "
+           "(so squareness, count, disjointness and cover are theorems about regenerated code); stream S18-generated compares the compiled regenerated loops with the real create_grid cell by cell.",
     "C20": " Added: the loops of group_gathered_subsamples and aggregate_chosen are regenerated; C20_generated_group (= Subs.group, hence the partition theorems) and C20_generated_aggregate "
            "(per-column aggregator lookup afresh for every column, Area weights, fallback when the aggregator raises) hold for all inputs.",
 }
